@@ -29,6 +29,11 @@ def site_data(P, s):
         d["args"] = [canon(x) for x in d["args_t"]]
     else:
         d["arms"] = pan.arm_context(b, s.bb, P.cfg(b))
+        for a in d["arms"]:
+            if "on" in a:
+                a["on"] = P.resolve(b, a["on"])
+            if "cond" in a:
+                a["cond"] = P.resolve(b, a["cond"])
     return d
 
 
@@ -736,9 +741,57 @@ class Lemmas:
                     good = False
             ok &= self._ob("RESIDUAL", "expand_x-exits-only-when-no-input-X", good, "return dominated by find_map(..) == None", "expand_x can return while an input X remains")
             for c in P.f.closures_of(ex.name):
-                cs = canon_calls(P, c)
-                good = any(n == "TestData::entry_is_input" or n.endswith("entry_is_input") for n, a in cs) and any("::eq" in n and any("DataEntry::X" in x for x in a) for n, a in cs)
-                ok &= self._ob("RESIDUAL", "expand_x-selector", good, "entry == X && entry_is_input(i)", "expand_x selects entries by %s" % cs)
+                good, got = selector_ok(P, c, "X")
+                ok &= self._ob("RESIDUAL", "expand_x-selector", good, "Some(i) iff entry == X && entry_is_input(i)", "expand_x selects entries by %s" % got)
+        ecb = P.body(TESTDATA + "::expand_c")
+        if ecb is not None:
+            for c in P.f.closures_of(ecb.name):
+                good, got = selector_ok(P, c, "C")
+                ok &= self._ob("RESIDUAL", "expand_c-selector", good, "Some(i) iff entry == C && entry_is_input(i)", "expand_c selects entries by %s" % got)
+        eii = P.body(TESTDATA + "::entry_is_input")
+        if eii is not None:
+            r = set(canon(P.sl(eii).ret(rb)) for rb in P.cfg(eii).return_blocks())
+            cl = P.f.closures_of(eii.name)
+            pt = tab.predicate_table(P, cl[0]) if cl else set()
+            good = r == {"Iterator::any([T]::iter(self.input_indices), closure({closure#0}))"} and pt == {(frozenset(), "EntryIndex::indexes(elem([T]::iter(self.input_indices)), entry_index)")}
+            ok &= self._ob("RESIDUAL", "entry_is_input", good, "input_indices.any(|e| e.indexes(i))", "entry_is_input is %s with %s" % (r, pt))
+        ix = P.body("data_row_iterator::<impl EntryIndex>::indexes")
+        if ix is not None:
+            pt = tab.predicate_table(P, ix)
+            want = {(frozenset([("variant(self)", ("Default",))]), "0"), (frozenset([("variant(self)", ("Entry",))]), "Eq((self as Entry).entry_index, entry_index)")}
+            ok &= self._ob("RESIDUAL", "EntryIndex::indexes", pt == want, "Entry{entry_index} == i; Default => false", "EntryIndex::indexes is %s" % sorted(pt, key=str))
+        return ok
+
+    # -- OUTIDX: stored output positions are below the remembered answer length ----------------
+    def lemma_OUTIDX(self):
+        P, ok = self.P, True
+        cons = P.constructors("data_row_iterator::OutputEntryIndex::Output")
+        fns = sorted(set(b.name for b, _, _, _ in cons))
+        ok &= self._ob("OUTIDX", "who-constructs-Output(n)", fns == [TESTDATA + "::build_output_indices"], "only build_output_indices", "OutputEntryIndex::Output constructed in %s" % fns)
+        for b, bb, i, st in cons:
+            t = P.sl(b).rvalue(st["rv"], bb, i)
+            c = canon(t[3][0][1])
+            ok &= self._ob("OUTIDX", "Output(n)-is-position-in-first-answer", bool(re.fullmatch(r"some!\(Iterator::position\(\[T\]::iter\(outputs\), closure\(\{closure#\d+\}\)\)\)", c)), c, "Output(n) with n = `%s`, not a position in the driver's answer" % c, "%s:%d" % (b.file, st["span"]["line"]))
+        boi = P.body(TESTDATA + "::build_output_indices")
+        if boi is None:
+            return self._ob("OUTIDX", "anchor", False, "", "build_output_indices not found")
+        # the two fields are written together, from the same answer
+        wl = [(x[0].name, x[1]) for x in P.field_writers(TESTDATA, "num_driver_outputs") if x[3] == "assign"]
+        wo = [(x[0].name, x[1]) for x in P.field_writers(TESTDATA, "output_indices") if x[3] == "assign"]
+        ok &= self._ob("OUTIDX", "who-writes-layout-fields", set(n for n, _ in wl) <= {boi.name} and set(n for n, _ in wo) <= {boi.name} and wl and wo, "%s / %s" % (wl, wo), "num_driver_outputs written in %s, output_indices in %s" % (wl, wo))
+        good = False
+        for n, bb in wl:
+            for i, st in enumerate(boi.blocks[bb]["stmts"]):
+                if st["s"] == "assign" and any(isinstance(e, dict) and e.get("f") == "num_driver_outputs" for e in st["lhs"]["p"]):
+                    v = canon(P.sl(boi).rvalue(st["rv"], bb, i))
+                    good = v == "[T]::len(outputs)"
+        ok &= self._ob("OUTIDX", "length-remembered-from-same-answer", good, "num_driver_outputs = outputs.len()", "num_driver_outputs is not the length of the answer the positions were taken from")
+        # both assignments on the same straight path (same block or consecutive)
+        if wl and wo:
+            cfg = P.cfg(boi)
+            a, b_ = wo[0][1], wl[0][1]
+            ok &= self._ob("OUTIDX", "fields-written-together", a == b_ or cfg.dominates(a, b_) or cfg.dominates(b_, a), "output_indices and num_driver_outputs are assigned on the same path", "output_indices and num_driver_outputs are assigned on different paths")
+        # the pushed vector is the one stored
         return ok
 
     # -- TKA: token-kind typestate of the parser -----------------------------------------------
@@ -851,6 +904,29 @@ class Lemmas:
         return c01.counter_lemma(self.P, self.chk)
 
 
+def selector_ok(P, cl, variant):
+    """closure(|(i, entry)|) returns Some(i) iff entry == <variant> && self.entry_is_input(i)."""
+    pt = tab.predicate_table(P, cl)
+    norm = set()
+    for facts, shape in pt:
+        nf = []
+        for f, truth in facts:
+            f = re.sub(r"elem\((?:[^()]|\((?:[^()]|\((?:[^()]|\((?:[^()]|\((?:[^()]|\([^()]*\))*\))*\))*\))*\))*\)", "E", f)
+            nf.append((f, truth))
+        norm.add((frozenset(nf), shape))
+    eq = "Eq(DataEntry::%s{}, E.1)" % variant
+    ne = "Ne(DataEntry::%s{}, E.1)" % variant
+    inp = "DataRowIteratorTestData::entry_is_input(self, E.0)"
+    want = {(frozenset([(eq, True), (inp, True)]), "Some(?)"), (frozenset([(eq, True), (inp, False)]), "None"), (frozenset([(ne, True)]), "None")}
+    # the Some payload must be the index
+    pay = set()
+    for pi in tab.paths(P, cl, to_return_only=True):
+        r = terms.strip(pi.ret())
+        if r[0] == "agg" and r[2].endswith("Option::Some"):
+            pay.add(re.sub(r"^elem\(.*\)\.0$", "E.0", canon(r[3][0][1])))
+    return (norm == want and pay == {"E.0"}, sorted(norm, key=str))
+
+
 def canon_calls(P, b):
     out = []
     for bb, t in b.calls():
@@ -932,6 +1008,85 @@ def r_rowwidth(P, L, s, d):
             return (good, "index is an enumerate index collected from this same row's entries")
         if ENTRY_INDEX.match(idx):
             return (L.need("ROWWIDTH"), "entry_index of an expected index, a header position; lemma ROWWIDTH")
+    return None
+
+
+def r_outidx(P, L, s, d):
+    ip = _index_pair(d)
+    if not ip or not s.body.name.startswith(TESTDATA + "::extract_output_values"):
+        return None
+    base, idx = ip
+    if base == "outputs" and re.fullmatch(r"\(elem\(Iterator::zip\(\[T\]::iter\(self\.expected_indices\), self\.output_indices\)\)\.1 as Output\)\.0", idx):
+        # the closure runs only after the length test against the remembered answer length
+        cs = P.closure_creation(s.body)
+        if cs is None:
+            return (False, "closure creation site not found")
+        g = guards_at(P, cs[0], cs[1])
+        good = any(x[0] == "Eq" and x[1] == "Vec::len(outputs)" and x[2] == "self.num_driver_outputs" for x in g)
+        if not good:
+            return (False, "the per-entry closure is not dominated by outputs.len() == self.num_driver_outputs (guards: %s)" % [x for x in g if x[0] in ("Eq", "Ne")])
+        return (L.need("OUTIDX"), "stored position < length of the first answer == length of this answer; lemma OUTIDX")
+    return None
+
+
+_FOLD_CACHE = {}
+
+
+def fold_total(P, b):
+    """Fold an all-integer, single-parameter function over 0..=130 plus large
+    probes in both overflow modes.  -> (ok, why, stats)"""
+    from ..core import fold
+    if b.name in _FOLD_CACHE:
+        return _FOLD_CACHE[b.name]
+    res = (False, "not an integer function of one parameter", {})
+    if b.arg_count == 1 and fold.int_ty(b.local_ty(1)) is not None:
+        signed, bits = fold.int_ty(b.local_ty(1))
+        top = (1 << (bits - (1 if signed else 0))) - 1
+        small = list(range(0, 131))
+        probes = [131, 255, 256, 1 << 16, 1 << 31, 1 << 32, top - 1, top]
+        if signed:
+            small += [-x for x in range(1, 131)]
+            probes += [-(1 << 31), -top, -top - 1]
+        probes = [p for p in probes if p <= top]
+        bad = []
+        n = 0
+        # comparisons against constants must all be below the enumerated range
+        consts = []
+        for bb in b.reachable_blocks():
+            for st in b.blocks[bb]["stmts"]:
+                if st["s"] == "assign" and st["rv"]["r"] == "bin":
+                    for side in ("a", "b"):
+                        o = st["rv"][side]
+                        if o.get("k") == "const" and "int" in o:
+                            consts.append(abs(o["int"]))
+        for mode in ("checked", "unchecked"):
+            out, seen = fold.fold_fn(P, b, [(v,) for v in small + probes], mode)
+            n += len(out)
+            for a, r in out.items():
+                if r[0] != "ret":
+                    bad.append((mode, a[0], r))
+            # large probes must not execute any arithmetic assert (their path is the same for all larger values)
+            f2 = fold.Folder(P, mode)
+            for v in probes:
+                f2.asserts_seen = {}
+                try:
+                    f2.run(b, [v])
+                except Exception:
+                    pass
+                if any(not k.startswith("UB") for k in f2.asserts_seen.values()):
+                    bad.append((mode, v, ("assert executed on a large-value path", sorted(set(f2.asserts_seen.values())))))
+        if consts and max(consts) >= 131:
+            bad.append(("-", "-", ("comparison constant %d outside the enumerated range" % max(consts),)))
+        res = (not bad, "folded for every value 0..=130 and %d boundary probes in both overflow modes: no Assert fails; large values take an assert-free path" % len(probes) if not bad else "fold: %s" % bad[:3], {"cases": n})
+    _FOLD_CACHE[b.name] = res
+    return res
+
+
+def r_fold(P, L, s, d):
+    if d["kind"] == "assert" and d["construct"].startswith("Overflow") and s.body.kind == "Fn" and s.body.arg_count == 1:
+        ok, why, stats = fold_total(P, s.body)
+        if stats:
+            return (ok, "FOLD: " + why)
     return None
 
 
@@ -1326,7 +1481,7 @@ def r_driver(P, L, s, d):
     return None
 
 
-RULES = [r_driver, r_sigidx, r_rowwidth, r_default_unwrap, r_generator_unreachable, r_stk, r_guard_lt, r_position_same,
+RULES = [r_driver, r_sigidx, r_rowwidth, r_outidx, r_fold, r_default_unwrap, r_generator_unreachable, r_stk, r_guard_lt, r_position_same,
          r_position_unwrap, r_func, r_bits_shift, r_step, r_capacity, r_drain_full, r_sort, r_radix, r_uninhabited,
          r_try_static, r_framedmap, r_refcell, r_gen_range, r_getrandom, r_binoptree_dummy, r_text_span, r_lex_prefix,
          r_header_lex, r_text_pos, r_loop_counter, r_kind_conversion, r_token_api]
